@@ -56,7 +56,7 @@ class Walker:
         return {
             'id': lex.id, 'label': lex.label, 'language': lex.language, 'email': lex.email,
             'license': lex.license, 'version': lex.version, 'url': lex.url, 'citation': lex.citation,
-            'logo': lex.logo, 'meta': lex.metadata() or None,
+            'logo': lex.logo, 'meta': lex.metadata() or None, 'modified': lex.modified(),
             'requires': req,
             'extends': ext.specifier() if ext is not None else None,
             'extensions': [x.specifier() for x in lex.extensions()],
